@@ -186,6 +186,7 @@ func runC09(c *Ctx) {
 	checkHangRules(c, fnsHang)
 	checkLoopProgress(c, fnsHang)
 	checkResultUsedAfterError(c, fns)
+	checkNilErrorDereferenced(c, fns)
 
 	// ---- validators answer Reject/Ignore on error edges
 	acc, _ := p.constValue("pkg/p2p", "ValidationAccept")
